@@ -8,6 +8,7 @@ namespace Verif.C20.Driver
 def errTag : Err → String
   | .commandError => "CommandError"
   | .attributeError => "AttributeError"
+  | .converterError => "ConverterError"
 
 def convTag : Conv → String
   | .ident => "ident"
@@ -19,6 +20,7 @@ def ofOutcome (j : Json) : Except String Outcome :=
   match j with
   | Json.str "convFail" => pure .convFail
   | Json.str "encFail" => pure .encFail
+  | Json.str "convCrash" => pure .convCrash
   | _ => do pure (.ok (← ofCps (← j.getObjVal? "ok")))
 
 def jStr (s : Str) : Json := Json.str (String.ofList s)
